@@ -270,6 +270,19 @@ def run(ctx):
     from . import c11 as _c11
     _c11.run(_Sub(ctx, 'C12.6-comparator-hygiene', 'c11', allow=('C11.1-no-self-compare', 'C11.3-eq-hash-fields', 'C11.4-bigint-truncation', 'C11.5-twin-helpers')))
 
+    # what is compared is the value itself, all of it
+    ctx.rule('C12.2-nothing-narrowed', 'on the comparison path of both term types (the two Ord impls and every erltf function they reach) no integer is narrowed before it is compared unless its range is shown to fit: '
+             'a 64-bit port id compared as `id as u32` makes ids that differ by a multiple of 2^32 equal', floor=2)
+    from ..families import check_casts as _cc12
+    seen12 = set()
+    for root in (CMP_O, CMP_B):
+        if root not in ctx.F.bodies:
+            continue
+        for q in sorted(P.reachable_from([root])):
+            if ctx.F.bodies[q]['crate'] == 'erltf' and q not in seen12:
+                seen12.add(q)
+                _cc12(ctx, P.B(q), 'C12.2-nothing-narrowed', include_float=False)
+
 
 def _digit_walk(P, fn):
     """How does helper `fn` (and its closures) walk two digit slices?  ('ok'|'bad'|'undecided', why)"""
